@@ -24,23 +24,32 @@ MANIFEST = dict(
               'c05_property over all generated objects) + fail-closed, semantically normalising ast census of math.py (store sites, angle '
               'creations, constructor paths per argument form by symbolic run, format/parse pipelines by return-path enumeration, __format__ '
               'as text terms, mutation events, result kinds of every public method, symbolic run of every copy-like method, __hash__ after '
-              'Python\'s resolution, in-place operator methods; the sets of names the census relies on are least fixpoints computed from the '
+              'Python\'s resolution, in-place operator methods, the census of STATE KEPT BETWEEN CALLS (stores into module-/class-level objects, '
+              'mutable defaults, caching decorators: must be empty - the register models of the history theorems have no other state); the sets of names the census relies on are least fixpoints computed from the '
               'source) + vm_compute correspondences (bit-exact / string-exact / parse results / frames / result aliasing / copied slots bit for '
-              'bit / __format__ components string-exact) + searches (histories over 65 operation kinds, matrix->angle routes, every constructor '
-              'argument form x boundary values x copies, hash/== of frozen values as keys, every in-place operator on frozen receivers, '
-              '__format__ specs, text round trips), every call into the implementation under a CPU-time limit',
+              'bit / __format__ components string-exact) + searches (histories over 66 operation kinds incl. ERROR PATHS - public calls with '
+              'arguments they must refuse, then the same frame/range checks on what was left behind -, matrix->angle routes, every constructor '
+              'argument form x boundary values x copies (a mutable copy taken twice must be two new objects: caches), hash/== of frozen values '
+              'as keys, every in-place operator on frozen receivers, __format__ specs, text round trips of str/join/repr), every call into the '
+              'implementation under a CPU-time limit.  Violations are raised only for what the property text states; behaviour beyond it '
+              '(which classes are hashable, the bits a numeric constructor stores inside the range, zero stripping of format(v, ".2f"), '
+              'repr spelled differently from str but canonical, == within the tolerance vs hash) is recorded as observations',
     text='Theorems in Props/C05.v; c05_property states the whole property over the record of everything read from the source, under the boolean '
          'hypotheses c05_source_ok which are kernel-checked on today\'s objects on every run. (a) For EVERY finite binary64 x the executable '
          'Flocq model of x % 360.0 % 360.0 is finite and in [0,360) (a single % reaches exactly 360.0, witness -1e-14), is the identity on '
          '[0,360) and subtracts exactly 360 on [360,720); hence, if every store to _pitch/_yaw/_roll is a double modulo, a copy of an angle '
-         'slot or 0.0, all angle slots stay in [0,360) after every history of stores with finite operands; and for the dispatch table of '
+         'slot or 0.0, all angle slots stay in [0,360) after every history of stores with finite operands - also after every PREFIX of the '
+         'stores of a call that raises half-way; and for the dispatch table of '
          'Angle.__init__/FrozenAngle.__new__ every form of the argument (number, same class, twin angle class, Vec, FrozenVec, other '
          'iterable) has a path whose result is in range (a slot is taken over unchanged only from an angle). The census also lists every '
          'expression that creates an Angle, none unclassified. (b) Frame theorem: with a mutation census in which no method reachable with '
          'a frozen receiver writes its receiver, an argument or a copy() of either, frozen objects never change and non-receivers are never '
-         'written; the hash of a frozen object (a function of all of its slots and nothing else, mutable classes unhashable) is the same '
-         'after every history and equal for equal values; no class of a frozen object defines an in-place operator; two objects of one family '
-         'with identical slots compare == (per-slot comparisons read from __eq__, each accepting a difference of zero). Copy theorem on a heap '
+         'written (the new values of written registers are arbitrary: covers interrupted calls); the hash of a frozen object (unhashable, or a '
+         'function of all of its slots and nothing else - never the identity; the hash of mutable classes is outside the property) is the same '
+         'after every history and equal for equal values; histories carry no state but the objects (census of shared state empty); no class '
+         'of a frozen object defines an in-place operator; two objects of one family '
+         'with identical slots compare == (per-slot comparisons read from __eq__, each accepting a difference of zero; the == table is a field of '
+         'the source record of c05_property). Copy theorem on a heap '
          'with aliasing, and the VALUE of a copy (class, every slot; angles: same real value, in range). (c) format_float on every dyadic: '
          'text is -?digits(.1-6 digits), no trailing zero, no exponent; "-0" is printed IF AND ONLY IF the input is in the carved-out class; '
          'value within 5e-7 of x. parse_vec_str applied to three formatted numbers in any documented bracket style with any whitespace '
@@ -57,8 +66,9 @@ MANIFEST = dict(
          'only the public API is used. Not modelled: float VALUES of rotations (sin/cos/atan2; only finiteness assumed, searched), what '
          'format(value, spec) itself prints (Python\'s; only the post-processing is modelled), == against tuples and the relation of == to the hash '
          '(== of two objects with identical slots is proved from the comparisons read from __eq__), the Cython '
-         'twin. Known findings kept: format_float / str / __format__(".Nf") print "-0" on negative values that round to zero (suite pins '
-         'str); == within the tolerance does not imply equal hashes (inherent to a tolerance equality).',
+         'twin. Known findings kept: format_float and str/join/repr of vectors print "-0" on negative values that round to zero (the suite pins '
+         'that output). Observations only (outside the property): == within the tolerance does not imply equal hashes; format(v, ".3f") '
+         'prints "-0".',
 )
 
 IMPORTS = ['Coq.ZArith.ZArith', 'Coq.NArith.NArith', 'Coq.Lists.List', 'Coq.Strings.String', 'SV.Num.Mod360', 'SV.Num.AngleSites', 'SV.Num.AngleCtor', 'SV.Num.SpecStrip', 'SV.Num.C05Whole',
@@ -111,6 +121,17 @@ def impl_limit(seconds: float = IMPL_CPU_LIMIT):
 @contextlib.contextmanager
 def no_limit():
     yield
+
+
+OBSERVATIONS: dict[str, str] = {}      # key -> text; behaviour the property does not state (never a violation); flushed into ck.notes
+
+
+def observe(key: str, text: str) -> None:
+    """Round 5: record something a user might care about but C05 does not state (which classes are hashable, what
+    format(obj, '.2f') strips, the exact bits a constructor stores inside the range, repr() spelled differently from
+    str() but canonical).  A check that demands more than the property states raises a false alarm: these go to the
+    evidence as notes/histograms only."""
+    OBSERVATIONS.setdefault(key, text)
 
 
 class Pending:
@@ -512,6 +533,33 @@ def roundtrip_within_theorem(field: str, before: float, after: float) -> bool:
     return 0.0 <= after < 360.0 and (abs(q - p) <= bound or abs(q + 360 - p) <= bound)
 
 
+def other_form(found: dict, fam: str, what: str, cname: str, t2: list, parts: list, comps: tuple, circle: bool) -> None:
+    """join() / repr() of an object whose str() printed `parts` (already found canonical).  The same three texts: nothing
+    more to test.  Different texts are a violation only when they break what the property states - each component a plain
+    decimal of at most 6 places, never '-0', denoting the component to within 5e-7 (+ the rounding of float()); a different
+    but canonical spelling ('1.0' for '1') is an observation."""
+    if t2 == parts:
+        return
+    rp = {'call': what, 'cls': cname, 'xyz': [c.hex() for c in comps]}
+    x = comps[0]
+    if len(t2) != 3:
+        found.setdefault(f'{fam}-{what}-not-plain', (x, f'{what} of {cname}{comps!r} prints {t2!r}: not three components', rp))
+        return
+    for t, c in zip(t2, comps):
+        pr = text_problem(t, c)
+        if pr:
+            found.setdefault(f'{fam}-{what}-' + ('negative-zero' if pr.startswith('negative-zero') else 'not-plain'),
+                             (x, f'{what} of {cname}{comps!r} prints {t2!r} (str() prints {parts!r})', rp))
+            return
+        d = abs(float(t) - c)
+        if circle:
+            d = min(d, abs(360.0 - d))
+        if d > 5e-7 + math.ulp(c) / 2:
+            found.setdefault(f'{fam}-{what}-error', (x, f'{what} of {cname}{comps!r} prints {t2!r}: {t!r} is not within 5e-7 of {c!r}', rp))
+            return
+    observe(f'{fam}-{what}-spelled-differently-from-str', f'{what} of {cname}{comps!r} prints {t2!r}, str() prints {parts!r} (both canonical)')
+
+
 def search_text(ck: Ck) -> None:
     from srctools.math import Angle, FrozenAngle, FrozenVec, Vec, format_float, parse_vec_str
     n = ck.budget(6000, 30000)
@@ -544,11 +592,9 @@ def search_text(ck: Ck) -> None:
                     'vec-str-negative-zero' if 'negative-zero' in probs else 'vec-str-not-plain'
                 found.setdefault(key, (x, f'str({v!r}) == {txt!r}', {'call': 'str', 'cls': cls.__name__, 'xyz': [x.hex(), y.hex(), z.hex()]}))
                 continue
-            # join() and repr() print the same three numbers
+            # join() and repr() are text forms too: the same demands (canonical, reads back) on whatever they print
             for what, t2 in (('join', v.join(';').split(';')), ('repr', repr(v)[len(cls.__name__) + 1:-1].split(', '))):
-                if t2 != parts and ('vec-str-' + what + '-differs-from-str') not in found:
-                    found['vec-str-' + what + '-differs-from-str'] = (x, f'{what} of {cls.__name__}({x!r}, {y!r}, {z!r}) prints {t2!r}, str() prints {parts!r}',
-                                                                      {'call': what, 'cls': cls.__name__, 'xyz': [x.hex(), y.hex(), z.hex()]})
+                other_form(found, 'vec', what, cls.__name__, t2, parts, (x, y, z), False)
             # every bracket style, and (c05_parse_format_vec: ANY non-empty whitespace between the numbers) other separators
             for wrap, sep in (('{}', ' '), ('({})', ' '), ('[{}]', ' '), (' <{}> ', ' '), ('{{{}}}', ' '), ('{}', '  '), ('({})', '\t'), ('[ {} ]', ' \n')):
                 text = wrap.format(txt.replace(' ', sep))
@@ -570,9 +616,7 @@ def search_text(ck: Ck) -> None:
                     continue
                 back = cls.from_str(txt, 77, 77, 77)
                 for what, t2 in (('join', a.join(';').split(';')), ('repr', repr(a)[len(cls.__name__) + 1:-1].split(', '))):
-                    if t2 != parts and ('angle-str-' + what + '-differs-from-str') not in found:
-                        found['angle-str-' + what + '-differs-from-str'] = (x, f'{what} of {a!r} prints {t2!r}, str() prints {parts!r}',
-                                                                            {'call': what, 'cls': cls.__name__, 'xyz': [x.hex(), y.hex(), z.hex()]})
+                    other_form(found, 'angle', what, cls.__name__, t2, parts, tuple(a), True)
                 ck.count('angle_roundtrip_cases')
                 for p, q in zip(a, back):       # which branch of the theorem: read back directly, or 360.0 stored as 0.0
                     ck.hist('angle_roundtrip_branch', 'wrap-around 360 -> 0' if p - q > 180 else 'direct')
@@ -657,7 +701,7 @@ def gen_op(rng: random.Random, regs: list) -> tuple:
              'iop_scalar', 'iop_vec', 'imatmul', 'set_attr', 'set_item', 'vec_minmax', 'vec_localise', 'vec_rotate', 'transform',
              'ang_mul', 'ang_rmul', 'ang_imul', 'mat_to_angle', 'mat_transpose', 'mat_inverse', 'mat_setitem', 'str', 'hash', 'eq', 'iter_ctor',
              'bbox', 'with_axes', 'divmod', 'round', 'ctor_cross', 'new_kw', 'set_key', 'vec_to_angle_roll', 'vec_rotation_around',
-             'vec_rotate_by_str', 'vec_clamped', 'vec_lerp', 'mat_from_angstr', 'to_matrix', 'vec_reads']
+             'vec_rotate_by_str', 'vec_clamped', 'vec_lerp', 'mat_from_angstr', 'to_matrix', 'vec_reads', 'bad_call', 'bad_call']
     name = rng.choice(names)
     a = rng.randrange(len(regs)) if regs else None
     b = rng.randrange(len(regs)) if regs else None
@@ -744,6 +788,19 @@ def apply_op(op: tuple, regs: list):
             pass                    # not on an axis (within its tolerance)
         if finite_small(A): list(A.iter_line(A + (0.0, 0.0, 8.0), 4))
         return ('<reads>', a, [], [])
+    if name == 'bad_call':
+        # ERROR PATHS (round 5): a public call with an argument it must refuse (wrong type, short tuple, unknown key, zero
+        # divisor, a body that raises inside transform()).  Whatever it raises is fine; what it LEFT BEHIND is checked by the
+        # caller like after any other step: frozen registers and non-receivers unchanged, every angle still in range.
+        calls = BAD_CALLS['vec' if isvec(A) else 'ang' if isang(A) else 'mat']
+        f = calls[(k * 17 + int(abs(x) * 7) + len(regs)) % len(calls)]
+        try:
+            f(A)
+        except ImplTimeout:
+            raise
+        except Exception:           # noqa: BLE001 - the refusal itself
+            pass
+        return ('<raised>', a, [], [])
     if name == 'ctor_cross':          # an angle from a vector object, a vector from an angle object (and the same family)
         if ismat(A): return None
         return ('__init__', None, [a], [(Vec, FrozenVec, Angle, FrozenAngle)[k](A)])
@@ -897,6 +954,40 @@ def apply_op(op: tuple, regs: list):
     raise AssertionError(name)
 
 
+def _bad_calls() -> dict:
+    import operator as O
+
+    def boom(A):
+        with A.transform() as m:
+            m @= type(m).from_yaw(33.0)
+            raise ValueError('body failed')
+
+    def iop(fn, arg):
+        def g(A):
+            fn(A, arg)          # operator.iadd & co. fall back to the binary operator exactly like `x += y`
+        return g
+    common = [lambda A: A * 'x', lambda A: 'x' * A, lambda A: A @ 'x', lambda A: A['q'], lambda A: A[7], iop(O.imul, 'x'), iop(O.imatmul, 'x'),
+              iop(O.imul, None), lambda A: type(A)('a', 'b', 'c'), lambda A: type(A)([1.0, 'a']), lambda A: type(A)(1.0, 'a', 2.0),
+              lambda A: type(A).from_str(None), lambda A: type(A).with_axes('q', 1.0), lambda A: format(A, 'zz'), lambda A: A.join(5),
+              lambda A: A.__setitem__(9, 1.0) if hasattr(A, '__setitem__') else None, boom, lambda A: pickle.loads(pickle.dumps(A)[:-3])]
+    vec = common + [lambda A: A + (1.0, 'a', 3.0), lambda A: A - None, lambda A: A / 0.0, lambda A: A // 0.0, lambda A: A % 0.0, lambda A: divmod(A, 0.0),
+                    lambda A: A.cross((1.0,)), iop(O.iadd, (1.0, 'a', 3.0)), iop(O.isub, (1.0, 2.0, 'c')), iop(O.itruediv, 0.0), iop(O.ifloordiv, 0.0),
+                    iop(O.imod, 0.0), iop(O.iadd, None), lambda A: setattr(A, 'y', 'abc'), lambda A: A.__setitem__('z', 'abc'),
+                    lambda A: A.to_angle('x'), lambda A: A.localise('junk', None), lambda A: A.rotate('a', 0, 0), lambda A: A.max((1.0,)),
+                    lambda A: A.min('ab'), lambda A: type(A).with_axes('x', 'abc'), lambda A: A.in_bbox(1, 2), lambda A: A.rotate_by_str(5),
+                    lambda A: A.norm_mask if False else (A * 0.0).norm().norm(), lambda A: A.axis() if False else type(A)(0, 0, 0).axis()]
+    ang = common + [lambda A: setattr(A, 'yaw', 'abc'), lambda A: A.__setitem__('rol', 'abc'), lambda A: A.__setitem__('nope', 1.0),
+                    lambda A: type(A).with_axes('yaw', 'abc'), lambda A: type(A).from_basis(), lambda A: A @ (1.0, 'a', 3.0), lambda A: (1.0, 'a') @ A,
+                    lambda A: type(A).with_axes('pitch', 1.0, 'pitch', 'b'), iop(O.imatmul, (1.0, 2.0, 3.0)), lambda A: A * (1, 2)]
+    mat = [lambda A: A @ 'x', iop(O.imatmul, 'x'), iop(O.imatmul, None), lambda A: A[5, 5], lambda A: A['a'], lambda A: A.__setitem__((0, 0), 'abc'),
+           lambda A: A.__setitem__((7, 7), 1.0), lambda A: type(A).from_angle('a', 'b', 'c'), lambda A: type(A).from_basis(),
+           lambda A: type(A).from_yaw('q'), lambda A: type(A).from_angstr(None), lambda A: (1.0, 'a', 3.0) @ A, lambda A: type(A).axis_angle((0.0, 0.0, 0.0), 'x'),
+           lambda A: pickle.loads(pickle.dumps(A)[:-3]), lambda A: type(A).from_basis(x=A.forward(), y=A.forward())]
+    return {'vec': vec, 'ang': ang, 'mat': mat}
+
+
+BAD_CALLS = _bad_calls()
+
 COPY_OPS = {'copy', 'copy_copy', 'deepcopy', 'pickle', 'freeze', 'thaw', 'ctor_same', 'ctor_frozen'}
 SHAPE_OPS = {'copy', 'copy_copy', 'deepcopy', 'pickle', 'freeze', 'thaw'}       # the methods of Gen copy_shapes
 NEVER_RAISES = COPY_OPS | {'new_vec', 'new_fvec', 'new_ang', 'new_fang', 'new_kw', 'new_mat_yaw', 'new_mat_pitch', 'new_mat_roll', 'new_mat_angle',
@@ -984,13 +1075,18 @@ class HistRunner:
         # copies are equal to and distinct from their (mutable) source
         if op[0] in COPY_OPS and out and op[1] is not None and op[1] < nregs:
             src, dst = regs[op[1]], out[0]
-            if snap(src)[1] != snap(dst)[1] and not (op[0] in ('ctor_frozen', 'ctor_same', 'pickle') and isang(src) is False and False):
+            if finite_obj(src) and raw_slots(src) != raw_slots(dst):        # "equal" = the same numbers (-0.0 == 0.0); every slot, exactly
                 problems.append((f'copy-not-equal-{op[0]}-{type(src).__name__}', f'{op[0]} of {snap(src)} gave {snap(dst)}', step))
             if dst is src and not is_frozen(src):
                 problems.append((f'copy-is-same-object-{op[0]}-{type(src).__name__}', f'{op[0]} returned the mutable source itself', step))
+            elif dst is not src and not is_frozen(dst) and any(dst is r for r in regs[:nregs]):
+                # (round 5: caches) a mutable "copy" that is an object handed out EARLIER is not independent: whoever holds
+                # the earlier result changes this one
+                problems.append((f'copy-returns-object-handed-out-before-{op[0]}-{type(src).__name__}',
+                                 f'{op[0]} of register {op[1]} returned the mutable object already held in register {next(i for i, r in enumerate(regs[:nregs]) if r is dst)}', step))
         for o in regs[nregs:]:
             if type(o).__name__ in ('FrozenVec', 'FrozenAngle') and safe_hash(o) == 'UNHASHABLE':
-                problems.append((f'frozen-class-unhashable-{type(o).__name__}', f'hash() of the {type(o).__name__} returned by {op[0]} raises TypeError', step))
+                observe(f'frozen-class-unhashable-{type(o).__name__}', f'hash() of the {type(o).__name__} returned by {op[0]} raises TypeError')
         # (a) every angle in range, now and for every register
         for i, o in enumerate(regs):
             if isang(o) and finite_obj(o):
@@ -1085,9 +1181,13 @@ def search_histories(ck: Ck) -> list[dict]:
             if key in found and len(found[key][0]) <= 3:
                 continue
             small = shrink(hist, lambda h, key=key: any(p[0] == key for p in run_history(h)[0]))
+            again = [p[1] for p in run_history(small)[0] if p[0] == key]
+            if not again:
+                # the shrunken history does not fail a second time: the implementation keeps state between calls (a cache
+                # survives from one replay to the next).  Report the history as it was generated.
+                small, again = hist, [what + ' (not reproducible call by call: state is kept between calls)']
             if key not in found or len(small) < len(found[key][0]):
-                w = next(p[1] for p in run_history(small)[0] if p[0] == key)
-                found[key] = (small, w)
+                found[key] = (small, again[0])
     ck.sample({'history': [list(o) for o in CORPUS_HIST[3]], 'final_registers': [snap(o)[:2] for o in run_history(CORPUS_HIST[3])[2]]})
     for key, (hist, what) in found.items():
         ck.violation(key, what, {'history': [list(o) for o in hist], 'how': 'checks.c05.run_history(history)'})
@@ -1395,6 +1495,7 @@ def ctor_posts() -> dict:
     P['from_str_object'] = lambda o: type(o).from_str(o)
     P['ctor_components'] = lambda o: type(o)(*o)
     P['ctor_str'] = only(isang, lambda o: type(o).from_str(' '.join(repr(c) for c in o)))
+    P['pos'] = only(isvec, lambda o: +o)            # "+ on a Vector simply copies it"
     return P
 
 
@@ -1442,15 +1543,20 @@ def ctor_case(cname: str, form: str, v: list, k: int, limit=None) -> list[tuple[
     if raw is not None:
         exp = tuple(norm360(x) for x in raw) if fam == 'ang' else tuple(float(x) for x in raw)
         if hexes(exp) != hexes(got):
-            out.append((f'{"angle" if fam == "ang" else "vec"}-ctor-wrong-value-{form}-{cname}', f'{what} holds {got!r}, the components given are {exp!r}'))
-        else:
-            # equal to, and (frozen) hashing like, the same value built from three floats
-            ref = C(*exp)
-            if not (o == ref) or (o != ref) or not (o == exp) or not (ref == o):
-                out.append((f'ctor-not-equal-to-same-value-{form}-{cname}', f'{what} == {ref!r} is false'))
+            if form in COPY_FORMS[fam]:
+                # the argument is an existing object of the same family: the result is a copy and must hold its value
+                out.append((f'{"angle" if fam == "ang" else "vec"}-ctor-wrong-value-{form}-{cname}', f'{what} holds {got!r}, the source holds {exp!r}'))
+            else:
+                # built from numbers: C05 states the RANGE of what an angle reports (tested above), not the bits stored
+                observe(f'ctor-value-differs-from-float-{form}-{cname}', f'{what} holds {got!r}; float(x){" % 360.0 % 360.0" if fam == "ang" else ""} of the components given is {exp!r}')
+        # equal to, and (frozen) hashing like, the same value built from three floats
+        ref = C(*got)
+        if hexes(raw_slots(ref)) == hexes(got):
+            if not (o == ref) or (o != ref) or not (o == got) or not (ref == o):
+                out.append((f'ctor-not-equal-to-same-value-{form}-{cname}', f'{what} == {ref!r} is false although all slots are identical'))
             if is_frozen(o) and safe_hash(o) == 'UNHASHABLE':
-                return [(f'frozen-class-unhashable-{cname}', f'hash() of {what} raises TypeError')]
-            if is_frozen(o) and hash(o) != hash(ref):
+                observe(f'frozen-class-unhashable-{cname}', f'hash() of {what} raises TypeError')
+            elif is_frozen(o) and hash(o) != hash(ref):
                 out.append((f'frozen-hash-differs-for-same-value-constructed-{cname}', f'hash of {what} differs from hash({ref!r})'))
     if out:
         return out
@@ -1470,16 +1576,28 @@ def ctor_case(cname: str, form: str, v: list, k: int, limit=None) -> list[tuple[
         if type(r) is not want:
             out.append((f'copy-wrong-class-{pname}-{cname}', f'{pname} of {what} is a {type(r).__name__}'))
             continue
-        if hexes(raw_slots(r)) != hexes(got):
+        if raw_slots(r) != got:                     # "equal" = the same numbers (-0.0 == 0.0); every slot, exactly
             out.append((f'copy-not-equal-{pname}-{cname}', f'{pname} of {what} = {got!r} holds {raw_slots(r)!r}'))
         elif not (r == o) or (r != o) or (is_frozen(r) and is_frozen(o) and safe_hash(r) != safe_hash(o)):
             out.append((f'copy-compares-unequal-{pname}-{cname}', f'{pname} of {what}: == / hash disagree although all slots are identical'))
         if r is o and not is_frozen(o):
             out.append((f'copy-is-same-object-{pname}-{cname}', f'{pname} of {what} returned the mutable object itself'))
+        elif not is_frozen(r):
+            try:
+                with (limit or no_limit)():
+                    r2 = post(o)
+            except Exception:       # noqa: BLE001 - the first call worked: reported as a copy that raises
+                out.append((f'copy-raised-{pname}-{cname}', f'the second {pname} of {what} raised'))
+                continue
+            if r2 is r:
+                out.append((f'copy-returns-object-handed-out-before-{pname}-{cname}', f'{pname} of {what} twice returned the same mutable object'))
         if raw_slots(o) != got:
             out.append((f'source-changed-by-{pname}-{cname}', f'{pname} changed {what} from {got!r} to {raw_slots(o)!r}'))
     return out
 
+
+# constructor forms whose argument is an existing object of the SAME family: the result is a copy of it
+COPY_FORMS = {'vec': {'vec', 'fvec', 'vec_and_defaults', 'from_str_vec'}, 'ang': {'angle', 'fangle', 'angle_and_defaults', 'from_str_angle'}}
 
 # constructor forms that call the constructor directly with an argument of one form of Num/AngleCtor.v (None: depends on the class)
 FORM_TO_ARGFORM = {'floats': 'FNumber', 'numbers': 'FNumber', 'one': 'FNumber', 'two': 'FNumber', 'kw': 'FNumber', 'pos_kw': 'FNumber',
@@ -1631,7 +1749,7 @@ def search_frozen_keys(ck: Ck) -> None:
     for o in (M.Vec(1, 2, 3), M.Angle(1, 2, 3), M.Matrix()):
         try:
             hash(o)
-            found[f'mutable-class-hashable-{type(o).__name__}'] = (f'hash({o!r}) works although the value can change', {'call': 'hash', 'cls': type(o).__name__})
+            observe(f'mutable-class-hashable-{type(o).__name__}', f'hash({o!r}) works although the value can change')
         except TypeError:
             pass
     n = ck.budget(400, 4000)
@@ -1653,7 +1771,7 @@ def search_frozen_keys(ck: Ck) -> None:
                 try:
                     hash(a)
                 except TypeError as e:
-                    found.setdefault(f'frozen-class-unhashable-{cls.__name__}', (f'hash({a!r}) raises {e}', {'call': 'hash', 'cls': cls.__name__, 'values': hexes(v)}))
+                    observe(f'frozen-class-unhashable-{cls.__name__}', f'hash({a!r}) raises {e}')
                     continue
                 ck.count('hash_cases')
                 if any(c != round(c) for c in raw_slots(a)):
@@ -1783,8 +1901,9 @@ def format_spec_case(cname: str, v: list, spec: str) -> list[tuple[str, str]]:
                 # has no user format spec; format(v, '.3f') follows Python's format() of the float, which keeps the sign.
                 continue
             if not re.fullmatch(r'-?[0-9]+(\.[0-9]*[1-9])?', t):
-                out.append((f'{fam}-format-spec-f-not-plain', f'format({o!r}, {spec!r}) = {txt!r}: {t!r} is not a plain decimal without trailing zeros'))
-                break
+                # An observation as well: that __format__ strips trailing zeros is today's behaviour, not a clause of C05
+                # (the value it denotes is compared above).
+                observe(f'{fam}-format-spec-f-not-plain', f'format({o!r}, {spec!r}) = {txt!r}: {t!r} is not a plain decimal without trailing zeros')
     return out
 
 
@@ -1865,7 +1984,7 @@ def theorems_with_axioms(ck: Ck, props_file: str = 'Props/C05.v'):
 # statements of Props/C05.v that go through Flocq's real-number layer (the four classical axioms of Coq's Reals); every other
 # statement is expected to be closed under the global context.  Only a hint for the fast path below: if it is wrong in
 # either direction the per-statement pass runs and reports what Print Assumptions really says.
-REALS_THEOREMS = {'c05_property', 'c05_ctor_range', 'c05_ctor_vec_copy_refuted', 'c05_norm360_range', 'c05_single_mod_closed', 'c05_single_mod_refuted', 'c05_angle_range_invariant', 'c05_single_site_refuted',
+REALS_THEOREMS = {'c05_property', 'c05_range_after_interrupted_call', 'c05_ctor_range', 'c05_ctor_vec_copy_refuted', 'c05_norm360_range', 'c05_single_mod_closed', 'c05_single_mod_refuted', 'c05_angle_range_invariant', 'c05_single_site_refuted',
                   'c05_double360_id', 'c05_double360_idempotent', 'c05_double360_of_360', 'c05_within_5e7_R', 'c05_float_parse_error',
                   'c05_float_parse_exact', 'c05_copy_value_equal_angles', 'c05_double360_sub', 'c05_angle_component_roundtrip',
                   'c05_angle_text_roundtrip', 'c05_vec_text_roundtrip'}
@@ -1967,12 +2086,12 @@ def _theorems_record(ck: Ck, props_file: str, names: list[str], parts: list[list
 def run(ck: Ck) -> None:
     ck.rule = ('mod360: doubles from all binades / around multiples of 360 / subnormals / tiny negatives, non-trivial = the modulo changed '
                'the value, distinct by bit pattern; format: doubles incl. exact ties k/128, tiny values, boundaries, non-trivial = output has a '
-               'fraction or a sign; histories: random operation sequences (65 operation kinds) over registers of Vec/Angle/Matrix and frozen '
+               'fraction or a sign; histories: random operation sequences (66 operation kinds, one of them = 68 calls that must be refused: error paths) over registers of Vec/Angle/Matrix and frozen '
                'twins, non-trivial = some register changed while a frozen register exists, distinct by full history; to_angle routes: '
                'non-trivial = a tiny non-zero operand; parse: corpus + generated strings (three formatted/literal/exotic numbers, 0-5 fields, '
                'stray brackets, 18 kinds of Unicode whitespace and look-alikes, all bracket styles incl. wrong ones), non-trivial = the model '
                'predicts three decimal fields, distinct by text; constructor forms: 43 ways of building an object from three numbers x 4 classes x '
-               'value triples from 32 boundary/out-of-range floats and 16 ints, then 17 copy-like operations, non-trivial = an angle class and a '
+               'value triples from 32 boundary/out-of-range floats and 16 ints, then 19 copy-like operations (each mutable result taken twice: two objects), non-trivial = an angle class and a '
                'component outside [0,360) or -0.0, distinct by (class, form, values); hash: frozen values by seven routes, values around the '
                'rounding boundaries of round(x, 6), non-trivial = a non-integer component; in-place: 13 operators x 3 frozen classes x 11 kinds of '
                'argument; format specs: 38 specs x 4 classes, non-trivial = some component prints with an exponent')
@@ -1987,6 +2106,7 @@ def run(ck: Ck) -> None:
                        'only the public API is used (no writes to underscore slots, no direct calls of dunder/underscore helpers)',
                        "Python's format(float, spec) is taken as given: only what __format__ does to its output is modelled",
                        'a call into the implementation that uses more than 20 s of CPU time is treated as not terminating']
+    OBSERVATIONS.clear()
     ok_t = ck.translate('AngleSites_gen', c05_sites.translate)
     side = ck.extra.get('translated', {}).get('AngleSites_gen', {})
     built = ok_t and ck.build(['Gen/AngleSites_gen.vo', 'Props/C05.vo'])
@@ -2028,9 +2148,10 @@ def run(ck: Ck) -> None:
             'no_inplace_operator_on_a_class_of_frozen_objects': 'inplace_ok inplace_rows',
             'eq_compares_every_slot_and_accepts_identical_values': 'eq_table_ok eq_shapes',
             'ne_is_the_negation_of_eq': 'ne_is_negation_of_eq',
+            'no_state_kept_between_calls': 'no_shared_state shared_state',
             'whole_property_hypotheses_hold': 'c05_source_ok {| s_sites := angle_sites; s_creations := angle_creations; s_ctors := angle_ctors; '
                                               's_ctor_rows := angle_ctor_rows; s_events := mut_events; s_results := result_kinds; s_shapes := copy_shapes; '
-                                              's_hash := hash_kinds; s_inplace := inplace_rows; s_fmt := format_float_cfg; s_parse := parse_vec_cfg; '
+                                              's_hash := hash_kinds; s_inplace := inplace_rows; s_eq := eq_shapes; s_shared := shared_state; s_fmt := format_float_cfg; s_parse := parse_vec_cfg; '
                                               's_vspec := vec_spec_cfg; s_aspec := angle_spec_cfg |}',
             'no_write_through_unknown_or_aliased_object': 'forallb (fun e : mut_event => match snd (fst e) with Unknown | MaybeAlias | Param => helper (snd (fst (fst e))) | _ => true end) mut_events',
         })
@@ -2043,7 +2164,7 @@ def run(ck: Ck) -> None:
         if built:
             pend.append(Pending(ck, corr_format_spec(ck, side), pool))
         info = pool.submit(ck.coq_eval, IMPORTS, ['bad_events no_carve mut_events', 'bad_results result_kinds', 'bad_creations angle_creations',
-                                                  'neg_zero_fix format_float_cfg', 'bad_shapes copy_shapes', 'bad_ctor_rows angle_ctor_rows', 'bad_hash_rows hash_kinds', 'bad_eq_rows eq_shapes'], 'info', 600, 'Import ListNotations.') if built else None
+                                                  'neg_zero_fix format_float_cfg', 'bad_shapes copy_shapes', 'bad_ctor_rows angle_ctor_rows', 'bad_hash_rows hash_kinds', 'bad_eq_rows eq_shapes', 'hash_conventions hash_kinds'], 'info', 600, 'Import ListNotations.') if built else None
         escalated = bool(ck.tie_broken)
         frames = guarded(ck, search_histories, [])
         if built:
@@ -2065,6 +2186,11 @@ def run(ck: Ck) -> None:
             ck.extra['offending_census_entries'] = {'mut_events': v[0], 'result_kinds': v[1], 'angle_creations': v[2], 'copy_shapes': v[4],
                                                      'angle_ctor_rows (constructor, argument form)': v[5], 'hash_kinds': v[6], 'eq_shapes': v[7]}
             ck.extra['format_float_has_negative_zero_repair (carve-out of c05_format6_shape empty when true)'] = v[3]
+            # an observation, not an obligation: C05 does not state which classes are hashable
+            ck.extra['observation: hash_conventions (mutable classes unhashable, FrozenVec/FrozenAngle hash by value)'] = v[8]
+            if str(v[8]).strip() != 'true':
+                ck.notes.append('observation (outside C05): the hash conventions of the pinned tree no longer hold (a mutable class is hashable, '
+                                'or FrozenVec/FrozenAngle is not): hash_conventions hash_kinds = ' + str(v[8]).strip())
         if finish_theorems is not None:
             finish_theorems()
     if ck.tie_broken and not escalated:
@@ -2075,6 +2201,9 @@ def run(ck: Ck) -> None:
         guarded(ck, search_frozen_keys)
         guarded(ck, search_format_spec)
         guarded(ck, search_text)
+    for key in sorted(OBSERVATIONS)[:12]:
+        ck.hist('observations_outside_the_property', key)
+        ck.notes.append(f'observation (outside C05) {key}: {OBSERVATIONS[key]}'[:400])
     explain_failures(ck)
 
 
@@ -2103,7 +2232,7 @@ def explain_failures(ck: Ck) -> None:
     """Failed obligations are explained only by a concrete, replayable violation of the matching kind (a KNOWN '-0'
     finding explains nothing: it leaves no obligation failing)."""
     keys = {v['key'] for v in ck.violations}
-    text = [k for k in keys if k.startswith(('format-float-', 'vec-str-', 'angle-str-')) and not k.endswith('-negative-zero')]
+    text = [k for k in keys if k.startswith(('format-float-', 'vec-str-', 'angle-str-', 'vec-join-', 'vec-repr-', 'angle-join-', 'angle-repr-')) and not k.endswith('-negative-zero')]
     if text:
         for o in ('instance:format_float_pipeline_recognised', 'instance:format_float_pipeline_ok_up_to_negative_zero',
                   'instance:format_float_places_is_6', 'instance:format_float_strips_zeros', 'instance:str_and_join_use_format_float',
@@ -2134,6 +2263,8 @@ def explain_failures(ck: Ck) -> None:
                          'angle-out-of-range-after-new_', 'angle-out-of-range-after-ctor_')) for k in keys):
         ck.explain('instance:angle_constructors_normalise_every_argument_form')
         ck.explain('correspondence:ctor_rows')
+    if any(k.startswith(('angle-out-of-range-after-ctor-from_str', 'angle-out-of-range-after-ang_from_str', 'ctor-raised-from_str')) for k in keys):
+        ck.explain('instance:from_str_of_angles_uses_parse_vec_str')        # from_str hands out an angle that did not go through the parse + constructor chain
     if any(k.startswith('angle-ctor-wrong-value') for k in keys):
         for o in ('instance:all_angle_store_sites_safe', 'instance:no_single_modulo_store', 'instance:no_unclassified_angle_store'):
             ck.explain(o)
@@ -2142,10 +2273,16 @@ def explain_failures(ck: Ck) -> None:
         ck.explain('instance:no_write_through_unknown_or_aliased_object')
         ck.explain('instance:census_fresh_by_name_justified')
         ck.explain('correspondence:frames')
-    if any(k.startswith(('copy-is-same-object', 'copy-not-equal', 'source-changed-by', 'copy-raised', 'raised-', 'frozen-route-raised', 'copy-wrong-class')) for k in keys):
+    if any(k.startswith(('copy-returns-object-handed-out-before', 'copy-is-same-object', 'copy-not-equal', 'source-changed-by', 'copy-raised', 'raised-', 'frozen-route-raised', 'copy-wrong-class')) for k in keys):
         ck.explain('instance:copy_')
+        ck.explain('instance:no_state_kept_between_calls')
         ck.explain('correspondence:results')
         ck.explain('correspondence:copy_shapes')
+    if any(k.startswith('copy-returns-object-handed-out-before') for k in keys):
+        # a cache: the store into it is what the mutation census and the creation census see
+        for o in ('instance:mutation_census_ok', 'instance:no_write_through_unknown_or_aliased_object', 'instance:no_unclassified_angle_creation',
+                  'instance:census_fresh_by_name_justified', 'correspondence:frames'):
+            ck.explain(o)
     if any(k.startswith(('copy-compares-unequal', 'ctor-not-equal-to-same-value')) for k in keys):
         ck.explain('instance:eq_compares_every_slot_and_accepts_identical_values')
         ck.explain('instance:ne_is_the_negation_of_eq')
